@@ -452,6 +452,24 @@ def r6_crash_pattern(repo):
     obs.append(Ob("C14-R6", "crash-pattern-applied-with-re.search-to-the-whole-output", _w(f),
                   len(cs) == 1 and src(cs[0].func) == "re.search" and src(cs[0].args[1]) == f.params[1] and len(cs[0].args) == 2,
                   "the crash test must be re.search(self.CRASH_REGEX, output)"))
+    # every other marker test of a compiler class on the output (Groovy's stack-overflow marker): the output is many
+    # lines long and a marker is never known to start it, so an anchored re.match / re.fullmatch loses the crash
+    for qual, ci in sorted(repo.classes.items()):
+        if not qual.startswith("src.compilers."):
+            continue
+        for name, m in sorted(ci.methods.items()):
+            for c in calls_in(m.node):
+                fn = src(c.func)
+                if fn not in ("re.search", "re.match", "re.fullmatch") or len(c.args) < 2:
+                    continue
+                if src(c.args[0]) == "self.CRASH_REGEX" and qual == "src.compilers.base.BaseCompiler":
+                    continue
+                if not (isinstance(c.args[0], ast.Attribute) and c.args[0].attr.endswith("_REGEX")):
+                    continue
+                obs.append(Ob("C14-R6", "%s.%s:%s-searched-anywhere-in-the-output" % (ci.node.name, name, c.args[0].attr),
+                              _w(m, c), fn == "re.search",
+                              "`%s`: a marker of the compiler's output must be looked for with re.search (the output has many "
+                              "lines; the marker need not start it)" % src(c)))
     return obs
 
 
